@@ -286,9 +286,9 @@ func vfCheckInv(l string, k *KCP) {
 		vfLemma(l+"/inv/rcv_buf-marked", k.rcv_buf.Has(s.sn))
 	}
 	vfLemma(l+"/inv/marks-count", len(k.rcv_buf.marks) == k.rcv_buf.Len())
-	if k.rcv_buf.Len() > 0 {
-		// R3: nothing deliverable is stuck behind a free slot
-		vfAssert(l+"/nothing-deliverable-stuck", vfImplies(uint32(m) < k.rcv_wnd, k.rcv_buf.segments[0].sn != k.rcv_nxt))
+	for j := 0; j < k.rcv_buf.Len(); j++ {
+		// R3: nothing deliverable is stuck behind a free slot — wherever it sits in the heap
+		vfAssert(l+"/nothing-deliverable-stuck", vfImplies(uint32(m) < k.rcv_wnd, k.rcv_buf.segments[j].sn != k.rcv_nxt))
 	}
 	vfAssert(l+"/rto-bounds", vfAnd(k.rx_rto >= k.rx_minrto, k.rx_rto <= IKCP_RTO_MAX))
 	vfLemma(l+"/inv/srtt>=0", vfAnd(k.rx_srtt >= 0, k.rx_rttvar >= 0))
